@@ -1483,6 +1483,16 @@ class Evaluator:
                 term = ("call", fterm, tuple(args), tuple(kws), self._new_occ())
                 ev.data["term"] = term
             st.fresh.add(term)
+        # a constructor, or a package function annotated to return an object of a class (not Optional), does not return None
+        try:
+            from .types import parse_ann
+
+            if site.how == "ctor" or (site.targets and site.how != "byname" and all(parse_ann(t.node.returns, self.program)[0] == "cls" for t in site.targets)):
+                if not hasattr(self, "_nonnull"):
+                    self._nonnull = set()
+                self._nonnull.add(term)
+        except Exception:
+            pass
         return [(st, term)]
 
     def _uses_prng(self, site: CallSite) -> bool:
